@@ -445,7 +445,7 @@ def h_he(ctx: Ctx) -> None:
     H5 = 'H5.hash-contract'
     ctx.rule(H5, 'SeriesHE/FrameHE.__eq__ is equals(other, compare_name=True, compare_dtype=False, '
              'compare_class=False, skipna=True); __ne__ is its negation; __hash__ reads only labels / '
-             'name / shape (never values, dtypes or class)', floor=6)
+             'name / shape (never values, dtypes or class) and hashes the label objects themselves, not a conversion of them (tolist / astype / str ...)', floor=6)
     prog = ctx.prog
     want = {'compare_name': True, 'compare_dtype': False, 'compare_class': False, 'skipna': True}
     for cname in HE_CLASSES:
@@ -496,5 +496,19 @@ def h_he(ctx: Ctx) -> None:
                     for c in ch:
                         if c in forbidden_anywhere:
                             problems.append(f'reads {c} (equal containers may differ in it)')
+        # the hashed elements are the very label objects equals compares: no conversion in between.  tolist() / astype / item / str ... map labels that
+        # compare equal (datetime64 of different units, NumPy vs Python scalars of differing width) to values that do not, which breaks a == b => hash(a) == hash(b)
+        CONVERTERS = {'tolist', 'astype', 'item', 'str', 'repr', 'format', 'round', 'int', 'float', 'bytes', 'tobytes', 'tostring', 'view', 'map', 'dumps'}
+        NEUTRAL = {'hash', 'tuple', 'hasattr', 'len', 'frozenset', 'zip', 'chain', 'list', 'iter', 'setattr', 'getattr'}
+        unknown_calls = []
+        for n in walk_local(hs.node):
+            if isinstance(n, ast.Call):
+                nm = n.func.attr if isinstance(n.func, ast.Attribute) else n.func.id if isinstance(n.func, ast.Name) else '?'
+                if nm in CONVERTERS:
+                    problems.append(f'hashes labels through `{nm}()`: a conversion under which labels that compare equal can become unequal')
+                elif nm not in NEUTRAL:
+                    unknown_calls.append(nm)
+        if unknown_calls and not problems:
+            ctx.unk(H5, hs, hs.node, f'hash inputs pass through {sorted(set(unknown_calls))}: whether equal labels stay equal under it is not decided', key=f'{cname}.__hash__:calls')
         # keep only maximal chains for the report
         (ctx.bad if problems else ctx.ok)(H5, hs, hs.node, '; '.join(sorted(set(problems))) or f'hash inputs: {sorted(r for r in reads if not any(o != r and o.startswith(r + ".") for o in reads))}', key=f'{cname}.__hash__')
